@@ -1,8 +1,44 @@
 // Replay enumerator for cut-point resolution: real function text, plain rustc.
+//@@ include prelude/kernel_model_plain.rs
 //@@ fn crates/ripd/src/continuities.rs resolve_cutpoint_from_tail
 //@@ end
+//@@ fn crates/ripd/src/continuities.rs resolve_context_compile_cutpoint_full
+//@@ end
+
+fn frame(seq: u64, code: usize) -> Event {
+    let (id, kind) = match code {
+        1 => ("a".to_string(), EventKind::ContinuityMessageAppended { actor_id: "u".into(), origin: "o".into(), content: "c".into() }),
+        2 => ("b".to_string(), EventKind::ContinuityMessageAppended { actor_id: "u".into(), origin: "o".into(), content: "c".into() }),
+        _ => (format!("f{seq}"), EventKind::ContinuityRunSpawned { run_session_id: "s".into(), message_id: "a".into(), actor_id: None, origin: None }),
+    };
+    Event { id, session_id: "t".into(), timestamp_ms: 0, seq, kind }
+}
+fn check_full() -> bool {
+    // streams of <= 6 frames (seq = 2*index, so consecutive seqs differ by 2), each frame a message a / message b / another frame
+    for n in 0..=6usize { for code in 0..3usize.pow(n as u32) {
+        let mut c = code; let mut ev = Vec::new();
+        for i in 0..n { ev.push(frame(2 * i as u64, c % 3)); c /= 3; }
+        for id in ["a", "b", "zz"] {
+            let got = resolve_context_compile_cutpoint_full(&ev, id);
+            let is_msg = |e: &Event| matches!(e.kind, EventKind::ContinuityMessageAppended { .. });
+            let a = ev.iter().position(|e| is_msg(e) && e.id == id);
+            let want = a.map(|a| { let nx = ev.iter().enumerate().find(|(j, e)| *j > a && is_msg(e)).map(|(_, e)| e.seq.saturating_sub(1)).unwrap_or(ev.last().map(|e| e.seq).unwrap_or(0)); (nx.max(ev[a].seq), Some(id.to_string())) });
+            // agreement with the tail path on the message projection
+            let proj: Vec<(u64, String)> = ev.iter().filter(|e| is_msg(e)).map(|e| (e.seq, e.id.clone())).collect();
+            let tail = resolve_cutpoint_from_tail(&proj, ev.last().map(|e| e.seq).unwrap_or(0), id).map(|(ms, from)| (from.max(ms), Some(id.to_string())));
+            if got.clone().ok() != want || tail != want {
+                println!("WITNESS {{\"function\": \"resolve_context_compile_cutpoint_full / resolve_cutpoint_from_tail\", \"frames\": {:?}, \"message_id\": {:?}, \"full_path\": {:?}, \"tail_path\": {:?}, \"expected\": {:?}, \"problem\": \"cut is not the frame before the next message after the triggering message (or the head), or the two read paths disagree\"}}",
+                    ev.iter().map(|e| format!("{}:{}", e.seq, if is_msg(e) { format!("msg({})", e.id) } else { "other".to_string() })).collect::<Vec<_>>(), id, got, tail, want);
+                return false;
+            }
+        }
+    } }
+    true
+}
 
 fn main() {
+    let a: Vec<String> = std::env::args().collect();
+    if a.get(1).map(|l| l.starts_with("cutpoint_full") || l.contains("agree")).unwrap_or(false) { check_full(); return; }
     // message frames: ascending seqs out of 0..=6, ids out of {a,b,c}; head >= last seq
     let ids = ["a", "b", "c"];
     for n in 0..=3usize {
